@@ -184,7 +184,9 @@ func vkRotation(st *vfStats, n int, r *vfRng, exhaustive bool) {
 				}
 				// the stream path (push/pull, reliable user messages, TCP ping) seals and opens with its own
 				// functions
-				mi, mj := vkShell(rings[i]), vkShell(rings[j])
+				// every other node was configured through Config.SecretKey (the key it started with), which the
+				// node keeps in its configuration while its keyring moves on
+				mi, mj := vkShell(rings[i], i%2 == 0, old), vkShell(rings[j], j%2 == 0, old)
 				smsg := []byte("rotation-probe-stream")
 				enc, err := mi.encryptLocalState(smsg, "lbl")
 				pairs++
@@ -265,9 +267,12 @@ func vkLengths(st *vfStats) {
 }
 
 // just enough of a node to use its stream sealing functions
-func vkShell(r *Keyring) *Memberlist {
+func vkShell(r *Keyring, viaSecret bool, secret []byte) *Memberlist {
 	cfg := DefaultLANConfig()
 	cfg.Keyring = r
+	if viaSecret {
+		cfg.SecretKey = secret
+	}
 	cfg.Logger = log.New(io.Discard, "", 0)
 	return &Memberlist{config: cfg, logger: cfg.Logger}
 }
